@@ -102,6 +102,9 @@ fn main() {
                 let sameret = r["ret"] == base["ret"] && r["calls"] == base["calls"];
                 let samedir = r["raw"] == base["raw"];
                 events.push(json!({"ev": "faulted", "action": sig, "k": k, "errno": ename, "call": call, "ok": ok, "sameret": sameret, "samedir": samedir, "died": false}));
+                if ok && sameret && samedir {
+                    bad.push(Mismatch { signature: format!("{} reports success although {call} failed", v.obs.act), detail: format!("{sig}: watched call #{k} ({call}) failed with {ename}; the call returned ok with the fault-free result and directory"), case: json!({"vector": v, "k": k, "errno": e}) });
+                }
                 if ok && !(sameret && samedir) {
                     bad.push(Mismatch { signature: format!("{} silently survives failing {call}", v.obs.act), detail: format!("{sig}: watched call #{k} ({call}) failed with {ename} but the call returned {} while the directory differs from the fault-free result: {}", r["ret"], layer_diff(&serde_json::from_value(r["post"].clone()).unwrap(), &serde_json::from_value(base["post"].clone()).unwrap())), case: json!({"vector": v, "k": k, "errno": e}) });
                 }
